@@ -291,6 +291,15 @@ class KeyedSet(Generic[ItemType, KeyType], MutableSet, KeyedBase):  # pylint: di
 
     # MutableSet implementation
 
+    def _from_iterable(self, it):
+        # Used by the inherited set operators (|, &, -, ^) to build their
+        # result, which must be keyed like this set.
+        return type(self)(
+            it,
+            key=self._key,
+            enforce_item_equivalence=self.enforce_item_equivalence,
+        )
+
     def __contains__(self, item_or_key):
         # Check whether item_or_key exists as a key
         try:
